@@ -18,14 +18,33 @@ def handleLine (line : String) : String :=
     | some r => r
     | none => "UNSUPPORTED"
 
-partial def loop (h : IO.FS.Stream) (out : IO.FS.Stream) : IO Unit := do
+/-- tables registered with LOADTABLE (name ↦ logical table) -/
+abbrev Registry := List (String × Lou.Table)
+
+partial def loop (h : IO.FS.Stream) (out : IO.FS.Stream) (reg : Registry) : IO Unit := do
   let line ← h.getLine
   if line.isEmpty then return ()
-  let r := handleLine line
-  if !r.isEmpty then out.putStrLn r
-  loop h out
+  let toks := (line.trimAscii.toString.splitOn " ").filter (· != "")
+  match toks with
+  | "LOADTABLE" :: name :: rest =>
+    match Lou.parseDump (" ".intercalate rest) with
+    | some t =>
+      out.putStrLn "OK"
+      loop h out ((name, t) :: reg.filter (·.1 != name))
+    | none =>
+      out.putStrLn "BADOP"
+      loop h out reg
+  | _ =>
+    match Lou.EngineProto.handle? reg toks with
+    | some r =>
+      out.putStrLn r
+      loop h out reg
+    | none =>
+      let r := handleLine line
+      if !r.isEmpty then out.putStrLn r
+      loop h out reg
 
 def main : IO Unit := do
   let i ← IO.getStdin
   let o ← IO.getStdout
-  loop i o
+  loop i o []
